@@ -23,4 +23,6 @@ revert_index_live_map C16
 revert_atomic_expiration C16
 revert_walk_snapshot C16
 revert_duplicate_label C15
+revert_syncmap_deleteall_count C18
+revert_prepareread_order C08
 LIST
